@@ -840,6 +840,33 @@ func oracleC05(c *DriveCtx, res *Result) {
 			}
 		}
 	}
+	// durability: whatever reached the wire from an outbox is stored and listed (whatever failed or crashed afterwards)
+	for _, wm := range s.World.Wire {
+		srv := s.World.Servers[wm.Srv]
+		if srv == nil {
+			continue
+		}
+		for _, a := range srv.Actors {
+			if a.Outbox != wm.Box || wm.Err {
+				continue
+			}
+			pm, err := parseJ([]byte(wm.Payload))
+			if err != nil {
+				continue
+			}
+			tk := s.byID[wm.Task]
+			if tk == nil || !isOutboxTask(tk) {
+				continue // automatic Accept/Reject are delivered without being listed
+			}
+			id := idOf(pm)
+			if _, ok := res.After[wm.Srv][id]; !ok {
+				s.violate("C05", "wire-payload-not-stored", "deliver", fmt.Sprintf("%s was handed to the transport but is not in the database at the end of the run", id))
+			}
+			if !contains(collIDs(res.After[wm.Srv][a.Outbox], ""), id) {
+				s.violate("C05", "wire-payload-not-in-outbox", "deliver", fmt.Sprintf("%s was handed to the transport but is not listed in %s", id, a.Outbox))
+			}
+		}
+	}
 	// (3) history: outbox lists exactly the returned ids, newest first
 	post := collectionsOf(res.After)
 	pre := collectionsOf(res.Before)
@@ -936,6 +963,18 @@ func init() {
 			if k%3 == 0 {
 				seed := r.s
 				c.singleFaultSweep(func() *RunSpec { return genOutbox(NewRng(seed), "C05", k, c.Tier) }, faultKindFor)
+				return
+			}
+			if k%3 == 1 {
+				// crash class: the server dies at a random step of the history; durability of what was sent is judged on what survives
+				seed := r.s
+				clean := c.Exec(genOutbox(NewRng(seed), "C05", k, c.Tier))
+				for i := 0; i < 3 && !c.Expired(); i++ {
+					run := genOutbox(NewRng(seed), "C05", k, c.Tier)
+					run.Faults = append(run.Faults, FaultSpec{Site: fmt.Sprintf("step|%d", 1+r.Intn(clean.Steps+2)), Kind: "crash", Arg: hostA})
+					run.Gen += " crash@" + run.Faults[len(run.Faults)-1].Site
+					c.Exec(run)
+				}
 				return
 			}
 			c.Exec(genOutbox(r, "C05", k, c.Tier))
